@@ -119,6 +119,22 @@ let handle (line : string) : string =
       (match r with
        | Some (n, d) -> Printf.sprintf "ok %s %s/%s div=%s" e_s (string_of_z n) (string_of_z d) (if div then "1" else "0")
        | None -> Printf.sprintf "ok %s unparsable div=%s" e_s (if div then "1" else "0"))
+    | "feval" ->
+      (* feval <num> <den> [<oracle>] -> ok c64=<bits|none> rn64=<bits> c32=<bits|none> rn32=<bits> p32=<bits> exact=<0|1> cert=<0|1>
+         bit patterns in decimal: c64/c32 = what the C/C++ expression evaluates to (operands rounded, one division, cast), rn = the
+         correctly rounded rational, p32 = the Python double cast to binary32, exact = both operands are exact doubles,
+         cert = the oracle's decimal constant parses and rounds to the same double as num/den (checked in Coq) *)
+      if not (is_dec toks.(1) && is_dec toks.(2)) then raise (Bad "invalid_arg");
+      let oracle = if Array.length toks > 3 then toks.(3) else "" in
+      let ((((((c64, rn64), c32), rn32), p32), exact), cert) = drv_feval (str_of_string oracle) (str_of_string toks.(1)) (str_of_string toks.(2)) in
+      let so = function Some z -> string_of_z z | None -> "none" in
+      Printf.sprintf "ok c64=%s rn64=%s c32=%s rn32=%s p32=%s exact=%s cert=%s" (so c64) (string_of_z rn64) (so c32) (string_of_z rn32)
+        (string_of_z p32) (if exact then "1" else "0") (if cert then "1" else "0")
+    | "names" ->
+      (* names <full_name> <major> <minor> -> ok <_FULL_NAME_> <_FULL_NAME_AND_VERSION_> *)
+      let m = { tm_full_name = str_of_string toks.(1); tm_major = z_of_string toks.(2); tm_minor = z_of_string toks.(3) } in
+      let so = function Some s -> string_of_str s | None -> "?" in
+      Printf.sprintf "ok %s %s" (so (c_full_name m)) (so (c_full_name_and_version m))
     | "b2b" -> if not (is_dec toks.(1)) then raise (Bad "invalid_arg"); "ok " ^ show_oz (filter_bits2bytes_ceil (z_of_string toks.(1)))
     | "fit" -> if not (is_dec toks.(1)) then raise (Bad "invalid_arg"); "ok " ^ show_oz (get_best_fit (z_of_string toks.(1)))
     | "tableok" -> if table_ok && emit_ok then "ok 1" else "ok 0"
